@@ -63,6 +63,11 @@ def step (d : D) (line : String) : D × String :=
       | none => (d, "bad-op"))
   | ["sdb", "dump"] => (d, "dump " ++ dump d.db)
   | ["sdb", "root"] => ({ d with db := StateJournal.finalise d.db }, "ok")
+  | ["sdb", "peek", _] => (d, "ok")      -- reads load the object, they change nothing
+  | ["sdb", "root1"] => ({ d with db := StateJournal.finaliseDel d.db }, "ok")
+  | ["sdb", "commit1"] =>
+    let db' := StateJournal.commitDel d.db d.persisted
+    ({ d with db := db', persisted := db'.accts }, "ok")
   | ["sdb", "commit"] =>
     let db' := StateJournal.commit d.db d.persisted
     ({ d with db := db', persisted := db'.accts }, "ok")
